@@ -199,7 +199,10 @@ class _NPathSegment:
     quoted: bool
 
 
-_NPATH_IDENTIFIER_RE = re.compile(r"^[A-Za-z_][A-Za-z0-9_']*$")
+_NPATH_IDENTIFIER_RE = re.compile(r"[A-Za-z_][A-Za-z0-9_']*")
+_NIX_KEYWORDS = frozenset(
+    {"assert", "else", "if", "in", "inherit", "let", "or", "rec", "then", "with"}
+)
 
 
 def _parse_npath(npath: str) -> list[_NPathSegment]:
@@ -218,7 +221,7 @@ def _parse_npath(npath: str) -> list[_NPathSegment]:
         name = "".join(buffer)
         if not quoted_segment and name == "":
             raise ValueError("NPath contains an empty segment")
-        if not quoted_segment and name and not _NPATH_IDENTIFIER_RE.match(name):
+        if not quoted_segment and name and not _NPATH_IDENTIFIER_RE.fullmatch(name):
             raise ValueError(f"NPath segment is not a valid identifier: {name}")
         segments.append(_NPathSegment(name=name, quoted=quoted_segment))
         buffer = []
@@ -272,7 +275,11 @@ def _parse_npath(npath: str) -> list[_NPathSegment]:
 
 def _format_attr_name(segment: _NPathSegment) -> str:
     """Format a segment as a binding name, quoting when needed."""
-    if segment.quoted or not _NPATH_IDENTIFIER_RE.match(segment.name):
+    if (
+        segment.quoted
+        or segment.name in _NIX_KEYWORDS
+        or not _NPATH_IDENTIFIER_RE.fullmatch(segment.name)
+    ):
         escaped = _escape_nix_string(segment.name, escape_interpolation=True)
         return f'"{escaped}"'
     return segment.name
